@@ -14,6 +14,31 @@ using namespace tt;
 
 #define TSC scalar_of<decltype(in)>
 
+#if TT_GROUP == 4
+// polar_decomposition calls the eigen-solver of F^T F (iterative / trigonometric: not traceable).  For the symbolic scalar
+// ONLY, the eigenvalues are injected as free symbols (hypothesis of the theorems: they are the eigenvalues of F^T F); the
+// double instantiation runs the real solver.
+namespace c02 {
+  inline symv::Sym g_vp[3];
+}
+namespace tfel::math::internals {
+  template <unsigned short N>
+  struct StensorEigenSolver<stensor_common::TFELEIGENSOLVER, N, symv::Sym> {
+    static void computeEigenValues(symv::Sym& a, symv::Sym& b, symv::Sym& c, const symv::Sym* const, const bool) {
+      a = c02::g_vp[0];
+      b = c02::g_vp[1];
+      c = c02::g_vp[2];
+    }
+  };
+}  // namespace tfel::math::internals
+template <typename T>
+void inject_vp(const V<T>&) {}
+template <>
+void inject_vp<Sym>(const V<Sym>& v) {
+  for (int i = 0; i < 3; ++i) c02::g_vp[i] = v[i];
+}
+#endif
+
 template <unsigned short N>
 void reg_tensor() {
   // ---- second-order, non symmetric
@@ -362,6 +387,145 @@ void reg_mixed() {
   });
 }
 
+#if TT_GROUP == 4
+// F = R0 U0 with structured stretches; the second input becomes what the REAL eigen-solver returns for F^T F
+template <unsigned short N>
+void polar_prep(In<double>& in, symv::Rng& rng, int s) {
+  auto& f = in[0];
+  if constexpr (N == 1) {
+    for (int i = 0; i < 3; ++i) f[i] = rng.range(0.05, 3.);
+  } else {
+    // rotation: about z (2D) or composed (3D)
+    tmatrix<3u, 3u, double> r = tmatrix<3u, 3u, double>::Id();
+    auto rot = [&](int a, int b, double th) {
+      tmatrix<3u, 3u, double> q = tmatrix<3u, 3u, double>::Id();
+      q(a, a) = std::cos(th); q(b, b) = std::cos(th); q(a, b) = -std::sin(th); q(b, a) = std::sin(th);
+      const tmatrix<3u, 3u, double> t = r * q;  // (no aliasing in the expression templates)
+      r = t;
+    };
+    const int kind = s % 6;
+    if (kind != 1) {  // kind 1: F symmetric positive (R = I)
+      rot(0, 1, rng.range(-3.1, 3.1));
+      if (N == 3) { rot(1, 2, rng.range(-3.1, 3.1)); rot(0, 2, rng.range(-3.1, 3.1)); }
+    }
+    double u[3] = {rng.range(0.3, 3.), rng.range(0.3, 3.), rng.range(0.3, 3.)};
+    if (kind == 0) u[0] = u[1] = u[2] = 1;             // F = rotation
+    if (kind == 2) u[rng.below(N == 3 ? 3 : 2)] = 0.02;  // nearly singular stretch
+    if (kind == 3) u[1] = u[0];                        // two equal stretches
+    // U0 = Q diag(u) Q^T
+    tmatrix<3u, 3u, double> q = tmatrix<3u, 3u, double>::Id(), saved = r;
+    r = q;
+    if (kind != 4) {  // kind 4: U0 diagonal
+      rot(0, 1, rng.range(-3.1, 3.1));
+      if (N == 3) { rot(0, 2, rng.range(-3.1, 3.1)); rot(1, 2, rng.range(-3.1, 3.1)); }
+    }
+    q = r;
+    r = saved;
+    tmatrix<3u, 3u, double> F(0.);
+    for (int i = 0; i < 3; ++i)
+      for (int j = 0; j < 3; ++j)
+        for (int k = 0; k < 3; ++k)
+          for (int l = 0; l < 3; ++l) F(i, j) += r(i, k) * q(k, l) * u[l] * q(j, l);
+    static const int P[9][2] = {{0, 0}, {1, 1}, {2, 2}, {0, 1}, {1, 0}, {0, 2}, {2, 0}, {1, 2}, {2, 1}};
+    for (int k = 0; k < tsz(N); ++k) f[k] = F(P[k][0], P[k][1]);
+  }
+  const auto C = computeRightCauchyGreenTensor(mk_t<N>(f));
+  const auto vp = C.computeEigenValues();
+  for (int i = 0; i < 3; ++i) in[1][i] = vp[i];
+}
+
+template <unsigned short N>
+void reg_ext() {
+  // ---- polar decomposition F = R U (eigenvalues of F^T F injected for Sym, see above)
+  static const char* HP = "polar_den $N (full_v $N b) <> 0";
+  reg("t_polar_U", N, "tv", 's', [](const auto& in) {
+    using T = TSC;
+    inject_vp<T>(in[1]);
+    tensor<N, T> R;
+    stensor<N, T> U;
+    polar_decomposition(R, U, mk_t<N>(in[0]));
+    return fl(U);
+  }, 0, HP);
+  set_prep(polar_prep<N>);
+  reg("t_polar_R", N, "tv", 't', [](const auto& in) {
+    using T = TSC;
+    inject_vp<T>(in[1]);
+    tensor<N, T> R;
+    stensor<N, T> U;
+    polar_decomposition(R, U, mk_t<N>(in[0]));
+    return fl(R);
+  }, 0, HP);
+  set_prep(polar_prep<N>);
+  // ---- remaining products / dyadic products / linear combinations of the mixed kinds
+  reg("C_lapply", N, "sC", 't', [](const auto& in) {  // s | C  (s : C, a tensor)
+    using T = TSC;
+    tensor<N, T> r = mk_s<N>(in[0]) | mk_C<N>(in[1]);
+    return fl(r);
+  });
+  reg("D_lapply", N, "tD", 's', [](const auto& in) {  // t | D  (t : D, a symmetric tensor)
+    using T = TSC;
+    stensor<N, T> r = mk_t<N>(in[0]) | mk_D<N>(in[1]);
+    return fl(r);
+  });
+  reg("st_otimes", N, "st", 'C', [](const auto& in) {  // s ^ t
+    using T = TSC;
+    t2tost2<N, T> r = mk_s<N>(in[0]) ^ mk_t<N>(in[1]);
+    return fl(r);
+  });
+  reg("ts_otimes", N, "ts", 'D', [](const auto& in) {  // t ^ s
+    using T = TSC;
+    st2tot2<N, T> r = mk_t<N>(in[0]) ^ mk_s<N>(in[1]);
+    return fl(r);
+  });
+  reg("C_expr", N, "CCx", 'C', [](const auto& in) {
+    using T = TSC;
+    const auto a = mk_C<N>(in[0]);
+    const auto b = mk_C<N>(in[1]);
+    t2tost2<N, T> r = 2 * a - b / 3 + in[2][0] * (-a);
+    return fl(r);
+  });
+  reg("D_expr", N, "DDx", 'D', [](const auto& in) {
+    using T = TSC;
+    const auto a = mk_D<N>(in[0]);
+    const auto b = mk_D<N>(in[1]);
+    st2tot2<N, T> r = 2 * a - b / 3 + in[2][0] * (-a);
+    return fl(r);
+  });
+  reg("A_dsquare2", N, "sA", 'A', [](const auto& in) {  // d(s.s)/ds . C
+    using T = TSC;
+    st2tost2<N, T> r = st2tost2<N, T>::dsquare(mk_s<N>(in[0]), mk_A<N>(in[1]));
+    return fl(r);
+  }, N == 3 ? 1 : 0);
+  reg("D_tpld2", N, "sA", 'D', [](const auto& in) {  // d(a.b)/da (symmetric a, at symmetric b) . C
+    using T = TSC;
+    st2tot2<N, T> r = st2tot2<N, T>::tpld(mk_s<N>(in[0]), mk_A<N>(in[1]));
+    return fl(r);
+  }, N == 3 ? 1 : 0);
+  reg("D_tprd2", N, "sA", 'D', [](const auto& in) {
+    using T = TSC;
+    st2tot2<N, T> r = st2tot2<N, T>::tprd(mk_s<N>(in[0]), mk_A<N>(in[1]));
+    return fl(r);
+  }, N == 3 ? 1 : 0);
+  reg("A_dev_d2det", N, "s", 'A', [](const auto& in) {  // second derivative of det(dev s) w.r.t. s
+    using T = TSC;
+    st2tost2<N, T> r = computeDeviatorDeterminantSecondDerivative(mk_s<N>(in[0]));
+    return fl(r);
+  });
+  reg("A_pull_back", N, "At", 'A', [](const auto& in) {  // push_forward by F^-1
+    using T = TSC;
+    st2tost2<N, T> r = pull_back(mk_A<N>(in[0]), mk_t<N>(in[1]));
+    return fl(r);
+  }, 1, "det2 (full_t $N b) <> 0", N != 3);  // 3D: execution only (push_forward and invert are both proved in 3D)
+  reg("t_fromFortran", N, "m", 't', [](const auto& in) {  // tensor::buildFromFortranMatrix (column-major 3x3)
+    using T = TSC;
+    T p[9];
+    for (int i = 0; i < 9; ++i) p[i] = in[0][i];
+    tensor<N, T> r = tensor<N, T>::buildFromFortranMatrix(p);
+    return fl(r);
+  });
+}
+#endif
+
 int main(int argc, char** argv) {
 #if TT_GROUP == 0
   reg_tensor<TT_N>();
@@ -369,8 +533,10 @@ int main(int argc, char** argv) {
   reg_st2tost2<TT_N>();
 #elif TT_GROUP == 2
   reg_t2tot2<TT_N>();
-#else
+#elif TT_GROUP == 3
   reg_mixed<TT_N>();
+#else
+  reg_ext<TT_N>();
 #endif
   return tracer_main(argc, argv, "Require Import TensorIndex TensorTactics C02Spec.\n");
 }
